@@ -89,6 +89,7 @@ let table : (string * (sexp -> sexp)) list = [
   ("C11", run_C11);
   ("C13", run_C13);
   ("C14", run_C14 float_share);
+  ("C20", run_C20);
 ]
 
 let () =
